@@ -161,6 +161,11 @@ func ZZ_C20_ValidatedConfigStarts() {
 			switch d2 {
 			case 8, 10, 11:
 				ok = c.Sbi != nil
+				if d1 == 8 && d2 == 11 {
+					ok = false // 11 would replace the bad scheme of 8 by a good one
+				}
+			case 15:
+				ok = d1 != 9 // 15 would replace the bad service list of 9 by a good one
 			case 12:
 				ok = c.RfDiameter != nil
 			case 13:
